@@ -48,7 +48,7 @@ def check_run(model, rep):
         for g in rp.guards:
             for k in g.key:
                 if isinstance(k, str) and k.startswith('self.'):
-                    read_fields.add(k[5:])
+                    read_fields.add(k[5:].split('#')[0])
         for c, e in flatten(rp.raw.state.effects):
             vals = []
             if e[0] == 'store':
@@ -59,7 +59,7 @@ def check_run(model, rep):
                 for a in value_atoms(ctx, v):
                     m = re.match(r'(?:carry|fold)\d+:(\w+)$', a)
                     if a.startswith('self.'):
-                        read_fields.add(a[5:].split('.')[0].split('[')[0])
+                        read_fields.add(a[5:].split('.')[0].split('[')[0].split('#')[0])
                     elif m:
                         read_fields.add(m.group(1))
             if e[0] == 'loop':
@@ -67,7 +67,7 @@ def check_run(model, rep):
                     for g in p.guards:
                         for k in g.key:
                             if isinstance(k, str) and k.startswith('self.'):
-                                read_fields.add(k[5:])
+                                read_fields.add(k[5:].split('#')[0])
     state_fields = sorted(f for f in written if f in read_fields)
     rep.analysed['solver_state_fields'] = state_fields
     nf = nc = 0
